@@ -881,6 +881,9 @@ mod b12 {
 	//!       mkeys <r|p> <base-key> <iv> <metadata> <signing-pubkey> <secret:pubkey|-> <tlv> -> keys <secret> | ok | err
 	//!                                                      (the whole verdict incl. the public key comparison)
 	//!       offerverify <base-key> <nonce|-> <secret:pubkey|-> <offer> / invverify <base-key> <secret:pubkey|-> <invoice>
+	//!       mirror <req|inv|sinv> <earlier message> <payer|-> <own> <expOwn|-> <sig> -> <message bytes>   (write plans of Unsigned*::new + sign)
+	//!       resign <req|inv> <unsigned bytes> <signature record>  -> <ok|not-ascending|contents-differ|malformed> <signed bytes>
+	//!                                                      (Unsigned*::try_from -> sign: the split range of bytes / experimental_bytes)
 	//! plus implementation-only oracles (round trips, single-bit mutations of signed streams, metadata
 	//! negatives, no-panic fuzzing of the public parsers), counted in the stats notes.
 	use ldk_verif_harness::common::*;
